@@ -1,0 +1,46 @@
+package responsemanager
+
+import (
+	"errors"
+	"testing"
+
+	"github.com/ipld/go-ipld-prime/node/basicnode"
+	"github.com/ipld/go-ipld-prime/traversal/selector/builder"
+	"github.com/libp2p/go-libp2p/core/peer"
+	"github.com/stretchr/testify/require"
+
+	"github.com/ipfs/go-graphsync"
+	gsmsg "github.com/ipfs/go-graphsync/message"
+	"github.com/ipfs/go-graphsync/messagequeue"
+	"github.com/ipfs/go-test/random"
+)
+
+type fixedCloser struct{ err error }
+
+func (f fixedCloser) TerminateRequest(graphsync.RequestID, *subscriber) {}
+func (f fixedCloser) CloseWithNetworkError(graphsync.RequestID, *subscriber) error {
+	return f.err
+}
+
+type countingNetworkErrorListeners struct{ n int }
+
+func (c *countingNetworkErrorListeners) NotifyNetworkErrorListeners(peer.ID, graphsync.RequestData, error) {
+	c.n++
+}
+
+// A failed message with left-over data of a request that has already ended (cancelled, completed)
+// is not a second outcome of that request: the network error listeners are told only when the
+// response still existed.
+func TestNetworkErrorNotReportedForEndedRequest(t *testing.T) {
+	ssb := builder.NewSelectorSpecBuilder(basicnode.Prototype.Any)
+	for _, tc := range []struct {
+		closeErr error
+		want     int
+	}{{nil, 1}, {graphsync.RequestNotFoundErr{}, 0}} {
+		listeners := &countingNetworkErrorListeners{}
+		request := gsmsg.NewRequest(graphsync.NewRequestID(), random.Cids(1)[0], ssb.Matcher().Node(), graphsync.Priority(0))
+		s := &subscriber{request: request, requestCloser: fixedCloser{tc.closeErr}, networkErrorListeners: listeners}
+		s.OnNext(nil, messagequeue.Event{Name: messagequeue.Error, Err: errors.New("send failed")})
+		require.Equal(t, tc.want, listeners.n)
+	}
+}
